@@ -26,8 +26,8 @@ static Fix& fix() {
   return F;
 }
 
-enum OpK { K_INIT, K_FREE, K_READ_A, K_READ_B, K_READ_MISSING, K_READ_CORRUPT, K_READMEM_A, K_READMEM_CORRUPT, K_WRITE_OK, K_WRITE_BAD, K_WRITE_MEM, K_GETKEY, K_READKEY, K_WRITEKEY_OK, K_WRITEKEY_BAD, K_ACCESSORS, K_EVAL, K_FIT_OK, K_FIT_BAD, K_FIT_MONO, K_GRIDEVAL, K_PERMUTE_OK, K_PERMUTE_BAD, K_CONVOLVE, K_N };
-static const char* KN[] = {"init", "free", "read(A)", "read(B)", "read(missing)", "read(corrupt)", "read_mem(A)", "read_mem(corrupt)", "write(ok)", "write(unwritable)", "write_mem", "get_key", "read_key", "write_key(ok)", "write_key(reserved)", "accessors", "evaluate", "glamfit(valid)", "glamfit(invalid)", "glamfit(monotonic)", "grideval", "permute(valid)", "permute(invalid)", "convolve"};
+enum OpK { K_INIT, K_FREE, K_READ_A, K_READ_B, K_READ_MISSING, K_READ_CORRUPT, K_READMEM_A, K_READMEM_CORRUPT, K_WRITE_OK, K_WRITE_BAD, K_WRITE_MEM, K_GETKEY, K_READKEY, K_WRITEKEY_OK, K_WRITEKEY_BAD, K_ACCESSORS, K_EVAL, K_FIT_OK, K_FIT_BAD, K_FIT_MONO, K_GRIDEVAL, K_PERMUTE_OK, K_PERMUTE_BAD, K_CONVOLVE, K_CONVOLVE_BAD, K_N };
+static const char* KN[] = {"init", "free", "read(A)", "read(B)", "read(missing)", "read(corrupt)", "read_mem(A)", "read_mem(corrupt)", "write(ok)", "write(unwritable)", "write_mem", "get_key", "read_key", "write_key(ok)", "write_key(reserved)", "accessors", "evaluate", "glamfit(valid)", "glamfit(invalid)", "glamfit(monotonic)", "grideval", "permute(valid)", "permute(invalid)", "convolve", "convolve(dim=ndim)"};
 struct Op { int kind, h; std::string label() const { return vf::fmt("h%d.%s", h, KN[kind]); } };
 
 struct World { struct splinetable c[2]; std::unique_ptr<Table> t[2]; int nconv[2]; World() { c[0].data = c[1].data = nullptr; nconv[0] = nconv[1] = 0; } };
@@ -83,6 +83,9 @@ static void step(World& w, const Op& op, std::string& oc, std::string& ot, bool&
       struct splinetable_buffer sb; sb.data = nullptr; sb.size = 0; oc = rc(writesplinefitstable_mem(&sb, h));
       std::pair<void*, size_t> b(nullptr, 0); ot = cpp([&] { b = t->write_fits_mem(); });
       if (sb.data && b.first) { oc += vf::fmt(" bytes=%zu", sb.size); ot += vf::fmt(" bytes=%zu", b.second); if (sb.size != b.second || memcmp(sb.data, b.first, b.second)) oc += " CONTENT-DIFFERS"; }
+      // a second write into the SAME, still occupied buffer struct: the header documents that data must be NULL; the call must fail
+      // and must leave the caller's block alone (otherwise the first block can never be freed)
+      if (sb.data) { void* before = sb.data; size_t sbefore = sb.size; int r2 = writesplinefitstable_mem(&sb, h); oc += rc(r2) + (sb.data == before && sb.size == sbefore ? " buffer-kept" : " BUFFER-REPLACED"); ot += "rc=1 buffer-kept"; if (sb.data != before) free(before); }
       free(sb.data); free(b.first); break; }
     case K_GETKEY: { if (!init) { applicable = false; return; } for (const char* k : {"IVAL", "SVAL", "NOPE", "NEWKEY"}) { const char* a = splinetable_get_key(h, k); const char* b = t->get_aux_value(k); oc += std::string(a ? a : "<NULL>") + ";"; ot += std::string(b ? b : "<NULL>") + ";"; } break; }
     case K_READKEY: { if (!init) { applicable = false; return; }
@@ -116,8 +119,10 @@ static void step(World& w, const Op& op, std::string& oc, std::string& ot, bool&
       struct ndsparse* r = nullptr; oc = rc(splinetable_grideval(h, cp.data(), nn.data(), &r)); std::unique_ptr<photospline::ndsparse> r2; ot = cpp([&] { r2 = t->grideval(coords); });
       if (r && r2) { oc += vf::fmt(" rows=%zu", r->rows); ot += vf::fmt(" rows=%zu", r2->rows); if (r->rows == r2->rows) for (size_t q = 0; q < r->rows; q++) { oc += vf::fmt(" %a", r->x[q]); ot += vf::fmt(" %a", r2->x[q]); } }
       if (r) ndsparse_destroy(r); break; }
-    case K_PERMUTE_OK: case K_PERMUTE_BAD: { if (!pop) { applicable = false; return; } uint32_t nd = t->get_ndim(); std::vector<size_t> p; for (uint32_t i = nd; i-- > 0;) p.push_back(i); if (op.kind == K_PERMUTE_BAD) p[0] = nd + 3;
+    case K_PERMUTE_OK: case K_PERMUTE_BAD: { if (!init) { applicable = false; return; }   /* also on an initialised but empty handle: the empty permutation is a no-op, anything else is refused */ uint32_t nd = t->get_ndim(); std::vector<size_t> p; for (uint32_t i = nd; i-- > 0;) p.push_back(i); if (op.kind == K_PERMUTE_BAD) { if (p.empty()) { applicable = false; return; } /* the C interface reads exactly ndim entries: it cannot be handed a wrong-length argument */ p[0] = nd + 3; }
       std::vector<size_t> p1 = p; oc = rc(splinetable_permute(h, p1.data())); ot = cpp([&] { t->permuteDimensions(p); }); break; }
+    case K_CONVOLVE_BAD: { if (!init) { applicable = false; return; } double k[3] = {-0.25, 0.0, 0.5}; uint32_t nd = t->get_ndim();   /* a dimension that does not exist (dimension 0 of an empty table): refused by both */
+      oc = rc(splinetable_convolve(h, (int)nd, k, 3)); ot = cpp([&] { t->convolve(nd, k, 3); }); break; }
     case K_CONVOLVE: { if (!pop || w.nconv[op.h] >= 1) { applicable = false; return; } double k[3] = {-0.25, 0.0, 0.5}; oc = rc(splinetable_convolve(h, 0, k, 3)); ot = cpp([&] { t->convolve(0, k, 3); }); w.nconv[op.h]++; break; }
   }
 }
